@@ -11,9 +11,9 @@ use crate::ev::Ctx;
 use crate::tape::Tape;
 use serde_json::{json, Value};
 
-pub const NSYM: usize = 18;
+pub const NSYM: usize = 31;
 pub const SYM_NAMES: [&str; NSYM] =
-    ["ident", "mut ident", "ref ident", "r#ident", "_", "(a,b)", "N(a)", "N(a,_)", "S{a}", "&a", "ident==fn name", "ident==would-be generated argK", "ident==fn name + '_'", "N(fn name)", "N(fn name + '_')", "N(argK)", "(a,b,c)", "N(_)"];
+    ["ident", "mut ident", "ref ident", "r#ident", "_", "(a,b)", "N(a)", "N(a,_)", "S{a}", "&a", "ident==fn name", "ident==would-be generated argK", "ident==fn name + '_'", "N(fn name)", "N(fn name + '_')", "N(argK)", "(a,b,c)", "N(_)", "N(mut a)", "N(ref a)", "S{mut a}", "N(ref mut a)", "a @ _", "(a,_)", "NN(N(a))", "S{a: x}", "[a,_]", "mut ident==fn name", "N(mut fn name)", "r#<fn name>", "r#<would-be generated argK>"];
 const RAW: [&str; 7] = ["r#type", "r#match", "r#loop", "r#move", "r#box", "r#dyn", "r#in"];
 pub const DEFAULT_fname: &str = "foo";
 
@@ -35,7 +35,7 @@ pub fn param(sym: usize, i: usize, len: usize, fn_name: &str) -> ParamSpec {
         // a binding that coincides with the fn name must be renamed (any fresh name will do); a destructured binding that starts
         // with `_` is a don't-care (the macro recognises bindings by a lower-case first letter, the statement's alphabet has none)
         let required = match required {
-            Some(r) if r == fn_name => None,
+            Some(r) if unraw(&r) == unraw(fn_name) => None,
             Some(r) if r.starts_with('_') && pat != r => None,
             other => other,
         };
@@ -79,7 +79,29 @@ pub fn param(sym: usize, i: usize, len: usize, fn_name: &str) -> ParamSpec {
             let e = format!("e{i}");
             p(format!("({b}, {c}, {e})"), None, vec![b, c, e])
         }
-        _ => p("N0(_)".into(), None, vec![]),
+        17 => p("N0(_)".into(), None, vec![]),
+        // binding modes inside a single-binding destructure: only the name is lifted
+        18 => p(format!("N(mut {b})"), Some(b.clone()), vec![b]),
+        19 => p(format!("N(ref {b})"), Some(b.clone()), vec![b]),
+        20 => p(format!("S {{ mut {b} }}"), Some(b.clone()), vec![b]),
+        21 => p(format!("N(ref mut {b})"), Some(b.clone()), vec![b]),
+        22 => p(format!("{b} @ _"), Some(b.clone()), vec![b]),
+        23 => p(format!("({b}, _)"), Some(b.clone()), vec![b]),
+        24 => p(format!("NN(N({b}))"), Some(b.clone()), vec![b]),
+        25 => p(format!("S {{ {b}: {c} }}"), Some(c.clone()), vec![c]),
+        26 => p(format!("[{b}, _]"), Some(b.clone()), vec![b]),
+        27 => p(format!("mut {fname}"), None, vec![fname.into()]),
+        28 => p(format!("N(mut {fname})"), None, vec![fname.into()]),
+        // raw spellings are the same identifier to rustc
+        29 => {
+            let raw = if fname.starts_with("r#") { fname.to_string() } else { format!("r#{fname}") };
+            p(raw, None, vec![fname.into()])
+        }
+        _ => {
+            let k = if len > 1 { (i + 1) % len } else { 0 };
+            let n = format!("arg{k}");
+            p(format!("r#{n}"), Some(format!("r#{n}")), vec![n])
+        }
     }
 }
 
@@ -111,7 +133,7 @@ pub fn build(syms: &[usize], no_deps: bool, is_async: bool, fn_name: &str) -> Op
     let mut seen = std::collections::HashSet::new();
     for p in &params {
         for b in &p.bindings {
-            if !seen.insert(b.clone()) {
+            if !seen.insert(unraw(b).to_string()) {
                 return None;
             }
         }
@@ -154,6 +176,11 @@ fn method_params(sig: &syn::Signature) -> Result<Vec<(String, String)>, String> 
     Ok(out)
 }
 
+/// `r#x` and `x` are one identifier
+fn unraw(s: &str) -> &str {
+    s.strip_prefix("r#").unwrap_or(s)
+}
+
 pub fn check(c: &Case) -> Result<(), String> {
     use quote::ToTokens;
     let fname = c.fn_name.as_str();
@@ -179,7 +206,7 @@ pub fn check(c: &Case) -> Result<(), String> {
             if ty != &format!("Ty{i}") {
                 return Err(format!("{what}: parameter {i} has type `{ty}`, expected `Ty{i}` (order/types changed)"));
             }
-            if name == fname {
+            if unraw(name) == unraw(fname) {
                 return Err(format!("{what}: parameter {i} is named `{name}`, shadowing the function it must call"));
             }
             if let Some(req) = &c.params[i].required {
@@ -195,7 +222,7 @@ pub fn check(c: &Case) -> Result<(), String> {
                 ));
             }
             for (j, (other, _)) in ps.iter().enumerate() {
-                if j < i && other == name {
+                if j < i && unraw(other) == unraw(name) {
                     return Err(format!("{what}: parameters {j} and {i} are both named `{name}`"));
                 }
             }
@@ -365,7 +392,11 @@ fn e2_type_and_value(sym: usize, i: usize) -> (String, String) {
     let v = 11 * (i as i64 + 1);
     match sym {
         5 => ("(i32, i32)".into(), format!("({v}, {})", v + 1)),
-        6 | 13 | 14 | 15 => ("N".into(), format!("N({v})")),
+        6 | 13 | 14 | 15 | 18 | 19 | 21 | 28 => ("N".into(), format!("N({v})")),
+        23 => ("(i32, i32)".into(), format!("({v}, {})", v + 1)),
+        24 => ("NN".into(), format!("NN(N({v}))")),
+        26 => ("[i32; 2]".into(), format!("[{v}, {}]", v + 1)),
+        20 | 25 => (format!("S{i}"), format!("S{i} {{ b{i}: {v} }}")),
         7 => ("N2".into(), format!("N2({v}, {})", v + 1)),
         8 => (format!("S{i}"), format!("S{i} {{ b{i}: {v} }}")),
         9 => ("&i32".into(), format!("&{v}")),
@@ -377,7 +408,7 @@ fn e2_type_and_value(sym: usize, i: usize) -> (String, String) {
 
 fn e2_src(c: &Case) -> String {
     let fname = c.fn_name.as_str();
-    let mut s = String::from("#![allow(warnings)]\nuse crate::rt;\n#[derive(Debug)] pub struct N(pub i32);\n#[derive(Debug)] pub struct N2(pub i32, pub i32);\n#[derive(Debug)] pub struct N0(pub i32);\npub struct App;\n");
+    let mut s = String::from("#![allow(warnings)]\nuse crate::rt;\n#[derive(Debug)] pub struct N(pub i32);\n#[derive(Debug)] pub struct N2(pub i32, pub i32);\n#[derive(Debug)] pub struct N0(pub i32);\n#[derive(Debug)] pub struct NN(pub N);\npub struct App;\n");
     let mut ps: Vec<String> = vec![];
     if !c.no_deps {
         ps.push("deps: &impl ::core::any::Any".into());
@@ -386,10 +417,11 @@ fn e2_src(c: &Case) -> String {
     let mut traces = vec![];
     for (i, (p, sym)) in c.params.iter().zip(c.syms.iter()).enumerate() {
         let (ty, val) = e2_type_and_value(*sym, i);
-        if *sym == 8 {
+        let is_struct = matches!(*sym, 8 | 20 | 25);
+        if is_struct {
             s.push_str(&format!("#[derive(Debug)] pub struct S{i} {{ pub b{i}: i32 }}\n"));
         }
-        let pat = if *sym == 8 { p.pat.replace("S {", &format!("S{i} {{")) } else { p.pat.clone() };
+        let pat = if is_struct { p.pat.replace("S {", &format!("S{i} {{")) } else { p.pat.clone() };
         ps.push(format!("{pat}: {ty}"));
         args.push(val);
         for b in &p.bindings {
@@ -419,7 +451,7 @@ pub fn e2_leg(ctx: &mut Ctx) -> bool {
     use crate::e2::{Batch, Opts};
     // quick: every list of length <= 2 plus a deterministic sample of length-3 lists; thorough: every list of length <= 3
     let mut cases: Vec<Case> = vec![];
-    let sample_stride = if ctx.quick() { 7 } else { 1 };
+    let sample_stride = if ctx.quick() { 17 } else { 1 };
     for len in 0..=3usize {
         let count = NSYM.pow(len as u32);
         for code in 0..count {
@@ -475,6 +507,6 @@ pub fn e2_leg(ctx: &mut Ctx) -> bool {
         }
     }
     ctx.extra.insert("e2_programs_compiled_and_run".into(), json!(cases.len()));
-    ctx.extra.insert("e2_scope".into(), json!(if ctx.quick() { "all lists of length <= 2, every 7th list of length 3, both deps modes" } else { "all lists of length <= 3, both deps modes" }));
+    ctx.extra.insert("e2_scope".into(), json!(if ctx.quick() { "all lists of length <= 2, every 17th list of length 3, both deps modes" } else { "all lists of length <= 3, both deps modes" }));
     true
 }
